@@ -12,7 +12,7 @@ Checks the loop shape
 and regenerates <expr> as a function over Q together with the draw range and EPSILON (exact decimal rationals)."""
 import ast
 from fractions import Fraction
-from .common import TranslationError, parse, find_class, find_func, HEADER, body_wo_doc
+from .common import TranslationError, parse, find_class, find_func, HEADER, body_wo_doc, normalise
 
 FILE = 'opytimizer/optimizers/abc.py'
 CONST = 'opytimizer/utils/constants.py'
@@ -50,6 +50,7 @@ def expr(node, file):
 
 def generate(repo):
     tree, src = parse(repo, FILE)
+    normalise(tree)
     cls = find_class(tree, 'ABC')
     fn = find_func(cls, '_send_onlooker') if cls else None
     if fn is None:
